@@ -196,10 +196,13 @@ def workload_configs(ctx):
     return cached("configs", ctx.tier, ctx.seed, compute)
 
 
-def each_config(ctx, fn):
+def each_config(ctx, fn, with_kept_maps=True):
     """apply an executable statement to the run of every configuration; a configuration under which the public API raises
-    is a violation of every row-level property (no row comes back)"""
+    is a violation of every row-level property (no row comes back); `with_kept_maps=False` leaves out the run that keeps
+    the atom maps (for statements that speak about the map-free text)"""
     for name, tr in workload_configs(ctx).items():
+        if tr.get("keep_maps") and not with_kept_maps:
+            continue
         ctx.count("configuration:" + name)
         if tr["out"] is None:
             ctx.violation("run-raises-under-configuration", {"configuration": name, "arguments": CONFIGS[name][0], "attributes": CONFIGS[name][1]},
